@@ -120,3 +120,43 @@ def run(rec):
                 sfull = np.linalg.svd(A, compute_uv=False)
                 rec.check(abs(ren - np.linalg.norm(sfull) * np.sqrt(max(0., 1 - err.eps))) < 1e-10, 'svd_theta:renormalization',
                           f'{ren}', inp)
+    eigh_rho_checks(rec, rng, quick)
+
+
+def eigh_rho_checks(rec, rng, quick):
+    """truncated eigen-decomposition of a (not normalised) positive matrix: kept pairs are eigenpairs, the kept eigenvalues are the
+    original ones rescaled by exactly 1 / (1 - eps) (so that the trace is kept), eps is the discarded fraction of the trace"""
+    import tenpy.linalg.np_conserved as npc
+    from tenpy.linalg.truncation import eigh_rho
+    from . import gen
+    for chinfo in gen.chinfos()[:5]:
+        for k in range(3 if quick else 30):
+            leg = gen.random_leg(rng, chinfo, max_size=3)
+            dtype = [np.float64, np.complex128][k % 2]
+            x = gen.random_array(rng, [leg, gen.random_leg(rng, chinfo, max_size=3)], dtype, labels=['a', 'b'], drop_blocks=0.1, zero_blocks=0.)
+            rho = npc.tensordot(x, x.conj(), axes=['b', 'b*']) * float(rng.uniform(0.3, 3.))      # positive, trace != 1
+            R = rho.to_ndarray()
+            tr = np.trace(R).real
+            if tr < 1e-8:
+                continue
+            lam_all = np.linalg.eigvalsh(R)
+            for tp in ({'chi_max': 2, 'svd_min': 1e-14}, {'chi_max': 100, 'svd_min': 0.35}, {'chi_max': 100, 'svd_min': None, 'trunc_cut': None}):
+                inp = {'mod': chinfo.mod.tolist(), 'shape': R.shape, 'trace': tr, 'trunc_par': tp}
+                rec.begin(f'C15 eigh_rho {inp}')
+                ok, res = rec.guarded('eigh_rho:exception', lambda: eigh_rho(rho, dict(tp)), inp)
+                rec.case(('eigh_rho', chinfo.mod.tobytes(), k, str(tp)), True)
+                if not ok:
+                    continue
+                W, V, err = res
+                Vd = V.to_ndarray()
+                rec.check(np.allclose(Vd.conj().T @ Vd, np.eye(Vd.shape[1]), atol=1e-10), 'eigh_rho:V-not-isometric', '', inp)
+                lam = np.einsum('ij,ij->j', Vd.conj(), R @ Vd).real                 # Rayleigh quotients of the kept vectors
+                rec.check(np.allclose(R @ Vd, Vd * lam[np.newaxis, :], atol=1e-9 * max(1, tr)), 'eigh_rho:not-eigenvectors', '', inp)
+                eps = 1. - np.sum(lam) / tr
+                rec.check(abs(eps - err.eps) < 1e-10, 'eigh_rho:error-not-exact', f'discarded fraction of the trace {eps}, reported eps {err.eps}', inp)
+                rec.check(abs(np.sum(W) - tr) < 1e-10 * max(1, tr), 'eigh_rho:trace-not-kept', f'sum(W) = {np.sum(W)}, trace(rho) = {tr}', inp)
+                rec.check(np.allclose(W * (1 - err.eps), lam, atol=1e-10 * max(1, tr)), 'eigh_rho:eigenvalues-not-rescaled-by-1/(1-eps)',
+                          f'W = {W}, kept eigenvalues {lam}, eps {err.eps}', inp)
+                approx = (Vd * W[np.newaxis, :]) @ Vd.conj().T
+                full = (Vd * lam[np.newaxis, :]) @ Vd.conj().T
+                rec.check(np.allclose(approx, full / (1 - err.eps), atol=1e-9 * max(1, tr)), 'eigh_rho:reconstruction', '', inp)
